@@ -109,6 +109,8 @@ MUTANTS = [
     ('lb nested ok', [(['connectors'], [{'name': 'direct'}, lb('pool', ['backup']), lb('backup', ['direct'])]), (['rules', 0, 'target'], 'pool')]),
     ('lb hashBy non-string', [(['connectors'], [{'name': 'direct'}, lb('a', ['direct'], algo={'hashBy': 'request.target.port'})]), (['rules', 0, 'target'], 'a')]),
     ('connector pointing at a listener of the same proxy', [(['connectors'], 'SELF-LOOP'), (['rules', 0, 'target'], 'selfc')]),
+    ('connector pointing at a listener of the same proxy by name', [(['connectors'], 'SELF-LOOP:localhost'), (['rules', 0, 'target'], 'selfc')]),
+    ('socks connector pointing at the socks listener of the same proxy', [(['connectors'], 'SELF-LOOP:socks'), (['rules', 0, 'target'], 'selfc')]),
     ('lb hashBy runtime error', [(['connectors'], [{'name': 'direct'}, lb('a', ['direct'], algo={'hashBy': 'to_string(1 / (request.target.port - request.target.port))'})]), (['rules', 0, 'target'], 'a')]),
 ]
 # the listener `auth` sub-document: every combination of its three parts (the probe logs in as a listed user and as one
@@ -203,8 +205,9 @@ def one(m):
             val = cfg['listeners'][:1]
         if isinstance(val, str) and val.startswith('PLUS-TPROXY:'):
             val = cfg['listeners'] + [{'name': 'tp', 'type': 'tproxy', 'bind': f'127.0.0.1:{free_port()}', 'protocol': 'udp', 'maxUdpSocket': int(val.split(':')[1])}]
-        if val == 'SELF-LOOP':
-            val = [{'name': 'direct'}, {'name': 'selfc', 'type': 'http', 'server': '127.0.0.1', 'port': hp}]
+        if isinstance(val, str) and val.startswith('SELF-LOOP'):
+            how = val.partition(':')[2]
+            val = [{'name': 'direct'}, {'name': 'selfc', 'type': 'socks', 'server': '127.0.0.1', 'port': sp}] if how == 'socks' else [{'name': 'direct'}, {'name': 'selfc', 'type': 'http', 'server': how or '127.0.0.1', 'port': hp}]
         if val == 'LOGDIR':
             val = {'path': 'logs/access.log', 'format': 'json'}
         setp(cfg, path, val)
